@@ -983,7 +983,7 @@ def _cmp_byhand(h, r, refmeta, meta):
                 at(rl if r["exc"] else h["line"]))
     if h["line"] != rl:
         return ("line", f"hooked traceback line {h['line']}, by-hand reference line {rl} (reference file line {r['line']})",
-                at(h["line"]))
+                at(rl if rl is not None else h["line"]))
     if h["out"] != r["out"]:
         k = _first_diff(h["out"], r["out"])
         return "stdout", f"evaluation order/count: hooked {h['out']}, by-hand {r['out']}", int(k.split(".")[0])
@@ -1134,11 +1134,14 @@ def do_resilience(rep, rows, sel, finds, batch=250):
             continue
         warns = [w for w in h["warns"] if w[0] == "BeartypeClawDecorWarning"]
         other = [w for w in h["warns"] if w[0] != "BeartypeClawDecorWarning"]
-        want = 1 if covered(row, p) else 0
+        # a definition reached by several decorations (its own class and an enclosing class that beartype
+        # decorates recursively) may be reported more than once: at least one warning iff it is covered
+        want = covered(row, p)
         n_warn += len(warns)
-        if len(warns) != want or other:
-            finds.add({"obs": "resilience", "what": "warnings", "at": at, "got": len(warns), "want": want},
-                      f"RESILIENCE: {len(warns)} BeartypeClawDecorWarning (+{other}) emitted, expected {want}{src}", case)
+        if bool(warns) != want or other:
+            finds.add({"obs": "resilience", "what": "warnings", "at": at, "got": min(len(warns), 1), "want": int(want)},
+                      f"RESILIENCE: {len(warns)} BeartypeClawDecorWarning (+{other}) emitted, expected "
+                      f"{'at least one' if want else 'none'}{src}", case)
         log = dict((a, b) for a, b in h["sitelog"])
         for i in sorted(set(funcs) | {p}):
             got = log.get(f"f{i}", "never called")
